@@ -26,6 +26,8 @@ pub enum Leg {
     MatrixLogger,
     /// schedule exploration with shuttle (vsched binary, hooks on)
     Sched { quick: u32, thorough: u32 },
+    /// real-thread waker scenarios under Miri (data-race detector, weak-memory emulation)
+    Miri { quick_seeds: u32, thorough_seeds: u32 },
 }
 
 pub struct PropSpec {
@@ -89,7 +91,11 @@ pub fn all() -> Vec<PropSpec> {
         v.push(PropSpec {
             min_nontrivial: 500,
             id,
-            legs: vec![Leg::Sched { quick: 320_000, thorough: 6_000_000 }],
+            legs: if id == "C11" {
+                vec![Leg::Sched { quick: 320_000, thorough: 6_000_000 }, Leg::Miri { quick_seeds: 24, thorough_seeds: 200 }]
+            } else {
+                vec![Leg::Sched { quick: 320_000, thorough: 6_000_000 }]
+            },
             rule,
             assumptions: a_sched.clone(),
         });
@@ -233,6 +239,10 @@ pub fn describe_leg(leg: &Leg, thorough: bool) -> Value {
             "kind": "proptest programs sent to one persistent vrun process per feature set that includes logger, recording logger installed",
             "programs_requested": if thorough { 2_000_000 } else { 160_000 },
         }),
+        Leg::Miri { quick_seeds, thorough_seeds } => json!({
+            "kind": "cargo +nightly miri run of /verif/harness/vmiri (real std threads, stakker with no-unsafe-queue), 6 scenarios x seeds via -Zmiri-many-seeds",
+            "seeds_per_scenario": if thorough { *thorough_seeds } else { *quick_seeds },
+        }),
         Leg::Sched { quick, thorough: th } => json!({
             "kind": "schedule exploration: proptest (scenario bytes, schedule bytes) driving a byte-driven shuttle scheduler, plus seeded random and PCT schedules per scenario",
             "scenarios_requested": if thorough { *th } else { *quick },
@@ -269,6 +279,7 @@ pub fn run_leg(prop: &str, idx: usize, leg: &Leg, thorough: bool, deadline: Inst
             if thorough { *len_t } else { *len_q },
             deadline,
         ),
+        Leg::Miri { quick_seeds, thorough_seeds } => run_miri(prop, if thorough { *thorough_seeds } else { *quick_seeds }, deadline),
         Leg::Sched { quick, thorough: th } => run_sched(prop, idx, if thorough { *th } else { *quick }, if thorough { 24 } else { 8 }, deadline),
         Leg::Matrix => crate::matrix::run_leg(prop, idx, thorough, deadline, false),
         Leg::MatrixLogger => crate::matrix::run_leg(prop, idx, thorough, deadline, true),
@@ -344,6 +355,20 @@ pub fn run_findings(prop: &str) -> (Vec<String>, Vec<(String, String)>, usize) {
 
 pub fn replay_special(engine: &str, v: &Value, path: &Path, _verbose: bool) -> i32 {
     match engine {
+        "miri" => {
+            let sc = v["scenario"].as_u64().unwrap_or(0);
+            let seed = v["miri_seed"].as_u64().unwrap_or(0);
+            let (ok, _n, out) = miri_run(sc as u32, seed, seed + 1);
+            println!("{}", out.lines().filter(|l| !l.starts_with("warning") && !l.trim().is_empty()).take(40).collect::<Vec<_>>().join("\n"));
+            if ok {
+                println!("replay: Miri reports nothing for scenario {} seed {}", sc, seed);
+                0
+            } else {
+                println!("  [miri] data race / stale read / UB reported by Miri for waker scenario {} seed {}", sc, seed);
+                println!("VIOLATION property=C11 replay={}", path.display());
+                1
+            }
+        }
         "sched" => {
             let st = Command::new(Path::new(VERIF).join("build/sched/release/vsched"))
                 .args(["replay", path.to_str().unwrap()])
@@ -573,5 +598,79 @@ fn run_sched(prop: &str, idx: usize, scenarios: u32, extra: u32, deadline: Insta
             (Some(st), Err(_)) => res.inconclusive.push(format!("schedule-exploration worker died without a report: {:?}", st)),
         }
     }
+    res
+}
+
+/// Run vmiri under Miri for seeds lo..hi; returns (all ok, number of ok executions, output)
+fn miri_run(scenario: u32, lo: u64, hi: u64) -> (bool, u64, String) {
+    let out = Command::new("cargo")
+        .args(["+nightly", "miri", "run", "-q", "--", &scenario.to_string()])
+        .current_dir(Path::new(VERIF).join("harness/vmiri"))
+        .env("MIRIFLAGS", format!("-Zmiri-many-seeds={}..{}", lo, hi))
+        .env("CARGO_NET_OFFLINE", "true")
+        .output();
+    match out {
+        Ok(o) => {
+            let text = format!("{}{}", String::from_utf8_lossy(&o.stdout), String::from_utf8_lossy(&o.stderr));
+            let n = text.lines().filter(|l| l.starts_with("ok scenario")).count() as u64;
+            let bad = !o.status.success() || text.contains("Undefined Behavior") || text.contains("STALE");
+            (!bad, n, text)
+        }
+        Err(e) => (false, 0, format!("cannot run cargo miri: {}", e)),
+    }
+}
+
+fn run_miri(prop: &str, seeds: u32, deadline: Instant) -> LegResult {
+    let mut res = LegResult::new();
+    let base = crate::seed().wrapping_mul(1000) % 1_000_000;
+    // build once (and make sure the tool works at all)
+    let (ok0, n0, out0) = miri_run(0, base, base + 1);
+    if !ok0 && n0 == 0 && !out0.contains("Undefined Behavior") && !out0.contains("STALE") {
+        res.inconclusive.push(format!(
+            "cargo +nightly miri run did not work here: {}",
+            out0.lines().filter(|l| l.contains("error")).take(3).collect::<Vec<_>>().join(" | ")
+        ));
+        return res;
+    }
+    let scenarios: Vec<u32> = (0..6).collect();
+    let results: std::sync::Mutex<Vec<(u32, bool, u64, String)>> = std::sync::Mutex::new(Vec::new());
+    let next = std::sync::atomic::AtomicUsize::new(0);
+    std::thread::scope(|sc| {
+        for _ in 0..4 {
+            sc.spawn(|| loop {
+                let i = next.fetch_add(1, std::sync::atomic::Ordering::SeqCst);
+                if i >= scenarios.len() || Instant::now() > deadline {
+                    break;
+                }
+                let (ok, n, out) = miri_run(scenarios[i], base, base + seeds as u64);
+                results.lock().unwrap().push((scenarios[i], ok, n, out));
+            });
+        }
+    });
+    for (sc, ok, n, out) in results.into_inner().unwrap() {
+        res.evaluations += n;
+        for k in 0..n {
+            res.nt.insert(0x3141_0000_0000_0000 ^ ((sc as u64) << 32) ^ (base + k));
+        }
+        *res.classes.entry(format!("miri-scenario-{}", sc)).or_insert(0) += n;
+        if !ok {
+            // find the failing seed
+            let mut bad_seed = base;
+            for sd in base..base + seeds as u64 {
+                let (ok1, _, _) = miri_run(sc, sd, sd + 1);
+                if !ok1 {
+                    bad_seed = sd;
+                    break;
+                }
+            }
+            let dir = Path::new(VERIF).join("evidence/replays");
+            fs::create_dir_all(&dir).unwrap();
+            let path = dir.join(format!("{}-miri-s{}-seed{}.json", prop, sc, bad_seed));
+            let first = out.lines().find(|l| l.contains("Undefined Behavior") || l.contains("STALE")).unwrap_or("Miri run failed").to_string();
+            fs::write(&path, serde_json::to_vec_pretty(&json!({"property": prop, "engine": "miri", "scenario": sc, "miri_seed": bad_seed, "message": first})).unwrap()).unwrap();
+            res.violations.push((path.to_string_lossy().to_string(), format!("Miri, waker scenario {} seed {}: {}", sc, bad_seed, first.trim())));
+        }
+    }
+    res.samples.push(json!({"miri": "scenario 3: 3 worker threads, each writes a plain cell then wake()s its own waker twice; handlers on the main thread read the cells; main answers poll-wakes only"}));
     res
 }
